@@ -27,7 +27,8 @@ type cs struct {
 	Src    string        `json:"src,omitempty"`
 	Names  *names        `json:"names,omitempty"`
 	SeedID int           `json:"seed_id"`
-	Mut    string        `json:"mut,omitempty"` // kind:args
+	Sizes  [][]int       `json:"sizes,omitempty"` // input sizes for programs with unsized arguments
+	Mut    string        `json:"mut,omitempty"`   // kind:args
 }
 
 // names decorates a generated circuit's I/O with synthetic names/compounds.
@@ -35,6 +36,23 @@ type names struct {
 	InName   int `json:"in_name_len"`  // length of input 0's name
 	OutName  int `json:"out_name_len"` // length of output 0's name
 	Compound int `json:"compound"`     // input 0 split into this many compound members
+}
+
+// sizedPrograms have unsized arguments (slices, unsized integers) that are instantiated from input sizes; plus
+// further signature shapes: arrays of arrays, arrays of structs, nested structs, wide integers, strings of bytes.
+var sizedPrograms = []struct {
+	src   string
+	sizes [][][]int
+}{
+	{"package main\nfunc main(a []byte, b uint8) uint16 {\n\tvar s uint16\n\tfor i := 0; i < len(a); i++ {\n\t\ts = s + uint16(a[i])\n\t}\n\treturn s + uint16(b)\n}\n", [][][]int{{{8}, {8}}, {{16}, {8}}, {{40}, {8}}}},
+	{"package main\nfunc main(a []byte, b []byte) []byte {\n\treturn a\n}\n", [][][]int{{{16}, {8}}, {{8}, {24}}}},
+	{"package main\nfunc main(a []int32, b int32) int32 {\n\treturn a[0] + b\n}\n", [][][]int{{{32}, {32}}, {{96}, {32}}}},
+	{"package main\nfunc main(a uint, b uint) uint {\n\treturn a + b\n}\n", [][][]int{{{5}, {5}}, {{64}, {64}}}},
+	{"package main\nfunc main(a [2][3]uint2, b uint2) uint2 {\n\treturn a[1][2] ^ b\n}\n", nil},
+	{"package main\ntype P struct {\n\tx uint3\n\ty int5\n}\nfunc main(a [2]P, b uint3) (uint3, P) {\n\treturn a[1].x + b, a[0]\n}\n", nil},
+	{"package main\ntype I struct {\n\tp uint2\n\tq bool\n}\ntype O struct {\n\ti I\n\tr [2]uint2\n}\nfunc main(a O, b uint2) (O, uint2) {\n\treturn a, a.i.p + b\n}\n", nil},
+	{"package main\nfunc main(a uint130, b int65) (uint130, int65, bool) {\n\treturn a, b, a > uint130(b)\n}\n", nil},
+	{"package main\nfunc main(a uint8, b uint8, c bool) (uint8, bool) {\n\treturn a + b, c\n}\n", nil},
 }
 
 var programs = []string{
@@ -50,7 +68,7 @@ func buildCircuit(k cs) (*circuit.Circuit, error) {
 		c = k.Circ.Build()
 	} else {
 		var err error
-		c, _, err, _ = mpcl.Compile(k.Src, mpcl.Opts{}, nil)
+		c, _, err, _ = mpcl.Compile(k.Src, mpcl.Opts{}, k.Sizes)
 		if err != nil {
 			return nil, err
 		}
@@ -116,8 +134,59 @@ func sameIO(a, b circuit.IO, withNames bool, path string) string {
 		if a[i].Type.String() != b[i].Type.String() {
 			return fmt.Sprintf("%s: type %s vs %s", p, a[i].Type, b[i].Type)
 		}
+		if d := sameInfo(a[i].Type, b[i].Type, p+".type"); d != "" {
+			return d
+		}
 		if d := sameIO(a[i].Compound, b[i].Compound, true, p+".compound"); d != "" {
 			return d
+		}
+	}
+	return ""
+}
+
+// sameInfo compares what a caller of the circuit sees of a type: kind, concreteness, width, array length and element
+// type (ID, MinBits, Offset and Struct are compiler bookkeeping and are not compared).
+func sameInfo(a, b types.Info, path string) string {
+	if a.Type != b.Type || a.IsConcrete != b.IsConcrete || a.Bits != b.Bits || a.ArraySize != b.ArraySize {
+		return fmt.Sprintf("%s: (%v concrete=%v bits=%d arraysize=%d) vs (%v concrete=%v bits=%d arraysize=%d)", path,
+			a.Type, a.IsConcrete, a.Bits, a.ArraySize, b.Type, b.IsConcrete, b.Bits, b.ArraySize)
+	}
+	if (a.ElementType == nil) != (b.ElementType == nil) {
+		return fmt.Sprintf("%s: element type %v vs %v", path, a.ElementType, b.ElementType)
+	}
+	if a.ElementType != nil {
+		if d := sameInfo(*a.ElementType, *b.ElementType, path+".elem"); d != "" {
+			return d
+		}
+	}
+	// Info.Struct is not compared: the native format carries struct members as compound IOArgs (compared by
+	// sameIO) and nothing a caller can do with a parsed circuit reads Info.Struct
+	return ""
+}
+
+// sameInputBehaviour: the textual and the Go-value form of an input put the same bits on the wires of both circuits.
+func sameInputBehaviour(a, b circuit.IO) string {
+	for i := range a {
+		n := int(a[i].Type.Bits)
+		if n == 0 || n > 512 || len(a[i].Compound) > 1 {
+			continue
+		}
+		hexv := "0x" + strings.Repeat("a5", (n+7)/8)
+		va, ea := a[i].Parse([]string{hexv})
+		vb, eb := b[i].Parse([]string{hexv})
+		if (ea == nil) != (eb == nil) || (ea == nil && va.Cmp(vb) != 0) {
+			return fmt.Sprintf("inputs[%d].Parse(%s): %v (err %v) on the original, %v (err %v) on the parsed circuit", i, hexv, va, ea, vb, eb)
+		}
+		if a[i].Type.Type == types.TSlice && a[i].Type.ElementType != nil && a[i].Type.ElementType.Bits == 8 {
+			val := make([]byte, n/8)
+			for j := range val {
+				val[j] = byte(j*37 + 1)
+			}
+			sa, ea := a[i].Set(nil, []interface{}{val})
+			sb, eb := b[i].Set(nil, []interface{}{val})
+			if (ea == nil) != (eb == nil) || (ea == nil && sa.Cmp(sb) != 0) {
+				return fmt.Sprintf("inputs[%d].Set(%d bytes): %v (err %v) on the original, %v (err %v) on the parsed circuit", i, len(val), sa, ea, sb, eb)
+			}
 		}
 	}
 	return ""
@@ -225,6 +294,12 @@ func runRoundtrip(ctx *runner.Ctx, k cs) {
 	if d := sameIO(c.Outputs, c2.Outputs, k.Format == "mpclc", "outputs"); d != "" {
 		fail("signature", d)
 		return
+	}
+	if k.Format == "mpclc" {
+		if d := sameInputBehaviour(c.Inputs, c2.Inputs); d != "" {
+			fail("input-behaviour", d)
+			return
+		}
 	}
 	d2, err := marshal(c2, k.Format)
 	if err != nil {
@@ -638,6 +713,17 @@ func work(ctx *runner.Ctx) {
 		}
 	}
 	base := circgen.Desc{In: []int{3, 2}, Out: []int{2}, Gates: []circgen.G{{2, 0, 3}, {0, 1, 4}, {4, 5, 0}, {3, 6, 2}}}
+	for i, sp := range sizedPrograms {
+		sizes := sp.sizes
+		if sizes == nil {
+			sizes = [][][]int{nil}
+		}
+		for j, sz := range sizes {
+			for _, f := range []string{"mpclc", "bristol"} {
+				cases = append(cases, cs{Mode: "roundtrip", Format: f, Src: sp.src, SeedID: 300 + 10*i + j, Sizes: sz})
+			}
+		}
+	}
 	nameLens := []int{0, 1, 255, 256, 4000, 4060, 4070, 4080, 4090, 4095, 4096, 4097, 4100, 5000, 8191, 8192, 8193, 70000}
 	for _, nl := range nameLens {
 		for _, ol := range []int{0, 3, 4096} {
